@@ -592,14 +592,35 @@ def rule_flow_sync(ctx):
             r.violate(nid, 'op-dropped-before-admitted-test', 'is_admitted', 'a path of the write-op consumer returns without having tested whether the '
                       'entry is already admitted: the weight change of an update op can be dropped', where=ctx.where(nid),
                       path=[fmt(c) + ' == ' + str(v) for c, v in p.conds][:6], expected='test entry.is_admitted() first; an admitted entry always books -old +new')
-    # MUST-clear-dirty: applying a write op always clears the entry's dirty flag (a dirty entry is skipped by eviction / expiry)
+    # MUST-clear-dirty: the dirty flag ("an update of this entry is waiting in the queue") lives in the EntryInfo shared by all versions of a key.
+    # Applying an op clears it exactly when the op is for the version the map holds now (identity of the map's value with the op's value entry):
+    # cleared on every such path -- otherwise the entry is skipped by eviction / expiry for ever -- and on no other path -- otherwise a newer
+    # update is still pending while the entry looks settled, and removal-of-pending-update below is defeated.
+    from .rules_live import literals_of
+
+    def _latest_fact(p):
+        """True / False / None: did the path establish that the map holds the op's own value entry?"""
+        for c, v in literals_of(p.conds):
+            if isinstance(c, tuple) and c[0] == 'call' and str(c[1]).split('::')[-1] == 'ptr_eq' and isinstance(v, bool):
+                a_ = [fmt(x) for x in c[2]]
+                if any('DashMap::get' in x for x in a_) and not any('.info' in x or 'entry_info' in x for x in a_):
+                    return v
+        return None
     for p in paths:
         cleared = any(e[0] == 'call' and str(e[1]).startswith('std::sync::atomic::') and str(e[1]).endswith('::store') and 'is_dirty' in fmt(e[2][0]) and e[2][1] == ('c', False) for e in p.events)
-        if not cleared:
-            r.instance(function=nid, event='path-without-dirty-reset')
-            r.violate(nid, 'dirty-not-cleared', 'is_dirty', 'a path of the write-op consumer does not clear is_dirty: the entry stays "being updated" for ever and the eviction / expiry scans skip it '
-                      '(a more recently used entry is evicted instead)', where=ctx.where(nid), path=[fmt(c)[:60] + ' == ' + str(v) for c, v in p.conds][:6],
-                      expected='entry.set_dirty(false) on every path')
+        latest = _latest_fact(p)
+        absent = any(isinstance(c, tuple) and c[0] == 'discr' and v == 0 and 'DashMap::get' in fmt(c) for c, v in p.conds)
+        r.instance(function=nid, event='dirty-flag', cleared=cleared, op_is_for_the_mapped_version=latest, key_absent=absent)
+        if cleared and latest is not True:
+            r.violate(nid, 'dirty-cleared-for-stale-version', 'is_dirty', 'a path of the write-op consumer clears the shared is_dirty flag without having established that the op is for the value '
+                      'entry the map holds now: with a newer update of the key still queued the entry looks settled, is picked as a victim / evicted, and gives back the queued '
+                      'update\'s weight instead of the counted one', where=ctx.where(nid), path=[fmt(c)[:60] + ' == ' + str(v) for c, v in p.conds][:6],
+                      expected='if map.get(key) is this very value entry { entry.set_dirty(false) }')
+            break
+        if latest is True and not cleared:
+            r.violate(nid, 'dirty-not-cleared', 'is_dirty', 'a path of the write-op consumer applies the op for the mapped version of an entry but does not clear is_dirty: the entry stays "being '
+                      'updated" for ever and the eviction / expiry scans skip it (a more recently used entry is evicted instead)', where=ctx.where(nid),
+                      path=[fmt(c)[:60] + ' == ' + str(v) for c, v in p.conds][:6], expected='entry.set_dirty(false) when the op is for the mapped version')
             break
     if (n_upd < 1 or n_adm < 2) and not r.violations:
         raise CheckFailure('FLOW-counters(sync): analysed %d update / %d admission paths in %s' % (n_upd, n_adm, nid))
